@@ -178,11 +178,12 @@ func build6(pk, en, pos int64, qs []rq) *world6 {
 		if w < 1 {
 			w = 1
 		}
+		ws := fmt.Sprintf("%d", w)
 		if qs[i].parent < 0 {
-			return "root/" + qname(qs[i]), fmt.Sprintf("1/%d", w)
+			return "root/" + qname(qs[i]), "1/" + ws
 		}
 		p, pw := hpath(int(qs[i].parent))
-		return p + "/" + qname(qs[i]), fmt.Sprintf("%s/%d", pw, w)
+		return p + "/" + qname(qs[i]), pw + "/" + ws
 	}
 	_ = hweights
 	w := &world6{queues: make([]*api.QueueInfo, len(qs))}
@@ -447,6 +448,9 @@ func exec6(x in6) out6 {
 	m, pops := matAndPops(objs, w.ssn.QueueOrderFn)
 	pq := objs[x.pre]
 	vm := matB(len(objs), func(a, b int) bool { return w.ssn.VictimQueueOrderFn(objs[a], objs[b], pq) })
+	if x.pk == 7 {
+		checkVictimsQueue(w, x, objs, vm)
+	}
 	return out6{m, vm, pops}
 }
 
@@ -455,17 +459,126 @@ func run6(in []int64) []int64 {
 	return cat(tag(1), o.m, tag(2), o.vm, tag(3), eList(o.pops))
 }
 
+// ---- the MECHANISMS of the two known findings, evaluated on the keys of the case.
+// A failing law-117 case carries a signature only if it exhibits the mechanism;
+// any other failure of the same law on the same plugin is reported unsigned.
+
+func capQueueLevel(a, b []int64) int {
+	level := 0
+	for i := 0; i < len(a) && i < len(b); i++ {
+		if a[i] != b[i] {
+			return level
+		}
+		level = i
+	}
+	return level
+}
+
+func capRep(k qkeys, level int) [2]int64 {
+	if level+1 < len(k.anc) {
+		return k.nodes[level+1]
+	}
+	return k.nodes[len(k.nodes)-1]
+}
+
+// hierarchical capacity: two LEAF queues of equal priority in DIFFERENT subtrees
+// (different ancestor chains) whose records just below the common ancestor tie
+func capSubtreeTie(x in6) bool {
+	if x.pk != 7 || x.en != 2 {
+		return false
+	}
+	for i, a := range x.keys {
+		for j, b := range x.keys {
+			if i == j || !a.leaf || !b.leaf || a.prio != b.prio || fmt.Sprint(a.anc) == fmt.Sprint(b.anc) {
+				continue
+			}
+			lv := capQueueLevel(a.anc, b.anc)
+			if capRep(a, lv) == capRep(b, lv) {
+				return true
+			}
+		}
+	}
+	return false
+}
+
+// hdrf: two queues of DIFFERENT hierarchy depth whose paths tie down to the shorter depth
+func hdrfDepthTie(x in6) bool {
+	if x.pk != 8 || x.en != 2 {
+		return false
+	}
+	for i, a := range x.keys {
+		for j, b := range x.keys {
+			if i == j || len(a.nodes) == len(b.nodes) {
+				continue
+			}
+			tie := true
+			for d := 0; d < len(a.nodes) && d < len(b.nodes); d++ {
+				tie = tie && a.nodes[d] == b.nodes[d]
+			}
+			if tie {
+				return true
+			}
+		}
+	}
+	return false
+}
+
 func laws6(in, got []int64, law func(lsel int, lin []int64, sig string)) {
 	x := dec6(in)
 	law(116, cat(in, got), "")
 	sig := ""
-	switch x.pk {
-	case 7:
+	switch {
+	case capSubtreeTie(x):
 		sig = sigCapacityHier
-	case 8:
+	case hdrfDepthTie(x):
 		sig = sigHdrfDepth
 	}
 	law(117, cat(in, got), sig)
+}
+
+// the victims queue over the REAL hierarchical capacity plugin: one running task
+// per leaf queue as victims, a task of the preemptor queue's job as preemptor.
+// Victims of different queues must be ordered by VictimQueueOrderFn of their
+// queues, i.e. the less closure must repeat the matrix vm on them - so whatever
+// law 117 finds about vm (cyclic under subtree ties) is a fact about the real
+// victims queue as well.
+func checkVictimsQueue(w *world6, x in6, objs []interface{}, vm []int64) {
+	n := len(objs)
+	jobOf := func(q *api.QueueInfo) *api.JobInfo {
+		for _, j := range w.ssn.Jobs {
+			if j.Queue == q.UID {
+				return j
+			}
+		}
+		return nil
+	}
+	pj := jobOf(objs[x.pre].(*api.QueueInfo))
+	if pj == nil {
+		return
+	}
+	victims := make([]*api.TaskInfo, n)
+	for k, o := range objs {
+		j := jobOf(o.(*api.QueueInfo))
+		if j == nil {
+			continue
+		}
+		for _, t := range j.TaskStatusIndex[api.Running] {
+			if victims[k] == nil || t.Name < victims[k].Name {
+				victims[k] = t
+			}
+		}
+	}
+	less := queueLess(w.ssn.BuildVictimsPriorityQueue(nil, &api.TaskInfo{UID: "preemptor", Job: pj.UID}))
+	for a := 0; a < n; a++ {
+		for b := 0; b < n; b++ {
+			if a == b || victims[a] == nil || victims[b] == nil {
+				continue
+			}
+			if less(victims[a], victims[b]) != (vm[a*n+b] != 0) {
+				panic("BuildVictimsPriorityQueue orders two victims of different queues differently from VictimQueueOrderFn of their queues")
+			}
+		}
+	}
 }
 
 // ---------------------------------------------------------------- generator
@@ -500,6 +613,11 @@ func genTieFamily(r *vh.Rng, pk int64, exact bool) []rq {
 				qs[2].par = 0 // a best-effort leaf: share 1 by definition, ties broken by has-deserved
 			}
 		}
+		if exact || r.Chance(1, 2) {
+			// a third subtree C with a leaf w: with the preemptor in w the capacity
+			// victim comparator ties on x, y, z and the reversed (cyclic) queue order decides
+			qs = append(qs, rq{ctime: ct(), uid: 6, parent: -1, par: 2}, rq{ctime: ct(), uid: 7, parent: 5, par: 2, alloc: 1})
+		}
 		return qs
 	}
 	// hdrf: eng{dev, prod}, sci - the layout of the plugin's own unit test
@@ -527,6 +645,9 @@ func gen6(r *vh.Rng, n int, emit func(id string, sel int, in []int64, kind strin
 		qs := genTieFamily(r, pk, i < 2)
 		cmpd := compared(pk, qs)
 		x := in6{pk: pk, en: 2, pre: int64(r.Intn(len(cmpd))), pos: int64(r.Intn(3)), qs: qs}
+		if pk == 7 && len(qs) == 7 && r.Chance(2, 3) {
+			x.pre = 6 // the leaf w of the third subtree
+		}
 		w := build6(x.pk, x.en, x.pos, x.qs)
 		x.keys = w.keys()
 		framework.CloseSession(w.ssn)
